@@ -137,7 +137,12 @@ def h_add(ex, a_lens, b_lens, tr_lens):
     va = ng.NgramVectorizer().fit(A)
     vb = ng.NgramVectorizer().fit(B)
     vc = ng.NgramVectorizer().fit(A + B)
-    s = call(lambda: va + vb)
+    from symx.containers import SymSet
+    SymSet.ARBITRARY_ORDER = True       # __add__ enumerates a set of new words: any iteration order must work
+    try:
+        s = call(lambda: va + vb)
+    finally:
+        SymSet.ARBITRARY_ORDER = False
     ca, cc = s.column_label_dictionary_, vc.column_label_dictionary_
     check("merged model has the same set of columns as a fit on the concatenated corpora",
           len(ca) == len(cc) and all(k in cc for k in ca.keys()))
@@ -194,8 +199,8 @@ def ngram_cases(tier, props, grid=None):
 
 
 def add_cases(tier):
-    grid = [((2,), (1,), (2,)), ((1, 1), (2,), (1,))] if tier == "quick" else \
-        [((2,), (2,), (2,)), ((1, 1), (2,), (1,)), ((3,), (2,), (2,)), ((2,), (1, 2), (0, 2)), ((2, 1), (2, 1), (1,))]
+    grid = [((2,), (1,), (2,)), ((1, 1), (2,), (1,)), ((1,), (1, 1), (1,))] if tier == "quick" else \
+        [((2,), (2,), (2,)), ((1, 1), (2,), (1,)), ((3,), (2,), (2,)), ((2,), (1, 2), (0, 2)), ((2, 1), (2, 1), (1,)), ((1,), (3,), (1,)), ((1,), (1, 1), (1,)), ((2,), (1, 2), (1,))]
     return [Case("ngram_add[a=%s,b=%s,tr=%s]" % ("+".join(map(str, a)), "+".join(map(str, b)), "+".join(map(str, t))),
                  h_add, dict(a_lens=list(a), b_lens=list(b), tr_lens=list(t)), replay="ngram:replay_add",
                  bounds={"corpus A": list(a), "corpus B": list(b), "transform": list(t)}, functions=FUNCS,
